@@ -25,7 +25,7 @@ TAGS = ["mosAbstract", "objSlug", "objDur", "objTB", "ncsItem", "studioCommand",
         "custom-tag", "ns_tag", "Element.With.Dots",
         # look-alikes of structural elements, nested where they mean nothing (depth >= 3)
         "item", "story", "storyID", "itemID", "p", "roID", "mosExternalMetadata", "mosPayload", "StoryDuration",
-        "storyBody", "storyItem", "roCreate", "roDelete", "mosromgrmeta", "roStorySend", "roElementAction",
+        "storyBody", "storyItem", "roCreate", "roDelete", "mosromgrmeta", "roStorySend", "roElementAction", "messageID",
         # names outside ASCII
         "r\u00e9sum\u00e9", "\u03c7\u03c1\u03cc\u03bd\u03bf\u03c2"]
 ATTRS = ["type", "techDescription", "lang", "data-x", "id", "unit\u00e9"]
@@ -88,6 +88,22 @@ def id_style_map(style):
     return f
 
 
+# the running order's own id ("RO1" in the model) as a quoted title, with blanks and path characters, or barely distinct
+# from another one by Unicode normalisation
+ROID_STYLES = [None, None, "Saturday's \"Late\" Show", "RO 1 / [rundown]", "caf\u00e9-RO", "ro1", "{RO1}*"]
+
+
+def restyle_roid(obj, new):
+    """spell the running order's id `new` in every <roID> node of an abstract value"""
+    if isinstance(obj, dict):
+        if obj.get("tag") == "roID" and obj.get("id") == "RO1":
+            return dict(obj, id=new)
+        return {k: restyle_roid(v, new) for k, v in obj.items()}
+    if isinstance(obj, list):
+        return [restyle_roid(x, new) for x in obj]
+    return obj
+
+
 def restyle(obj, f):
     """rename every id in an abstract value (nodes and references); tokens are left alone"""
     if isinstance(obj, dict):
@@ -109,6 +125,7 @@ class Gamma:
     def __init__(self, seed, style=None, idf=None):
         self.seed = seed
         self.idf = idf or (lambda x: x)       # the id style of this case (nested look-alike ids are spelled in it too)
+        self.roid = lambda x: x               # how this case spells the running order's id (see ROID_STYLES)
         r = random.Random("%s|style" % seed)
         self.pretty = r.random() < 0.5 if style is None else style == "pretty"
         self.decl = r.random() < 0.3
@@ -141,10 +158,12 @@ class Gamma:
             if r.random() < 0.1:          # the xml: prefix and a declared namespace prefix
                 attrs += ' xml:lang="en-GB"' if r.random() < 0.5 else ' xmlns:v="urn:verif:ns" v:flag=%s' % quoteattr(self.text(r))
             kind = r.random()
-            if kind < 0.2 and tag not in ("storyID", "itemID"):
+            if kind < 0.2 and tag not in ("storyID", "itemID", "messageID"):
                 el = "<%s%s/>" % (tag, attrs)
             elif tag in ("storyID", "itemID"):
                 el = "<%s%s>%s</%s>" % (tag, attrs, escape(self.idf(r.choice(LIKELY_IDS))), tag)
+            elif tag == "messageID":          # a number that is not the document's message id
+                el = "<%s%s>%d</%s>" % (tag, attrs, r.choice([1, 5, 77, 99999, 2 ** 40]), tag)
             else:
                 inner = ""
                 if r.random() < 0.7:
@@ -164,6 +183,8 @@ class Gamma:
         tag, nid, tok = n["tag"], n["id"], n["tok"]
         r = self.rng("leaf", tag, nid, tok)
         if tok == "=":
+            if tag == "roID" and nid != NONE:
+                nid = self.roid(nid)
             return "<%s/>" % tag if nid == NONE else "<%s>%s</%s>" % (tag, escape(nid), tag)
         if tok.startswith("e:") and tag != "p":       # an empty element (e.g. a blank <roEdStart/>)
             return "<%s/>" % tag if r.random() < 0.5 else "<%s></%s>" % (tag, tag)
@@ -208,7 +229,8 @@ class Gamma:
                 return "<p>  \t </p>"
             return "<p>%s</p>" % self.chars(r, self.text(r) + " " + tok)
         if tag == "roDelete":
-            return "<roDelete><roID>%s</roID>%s</roDelete>" % ("RO-other" if tok.endswith(".foreign") else "RO1", self.marker(tok))
+            return "<roDelete><roID>%s</roID>%s</roDelete>" % (escape("RO-other" if tok.endswith(".foreign") else self.roid("RO1")),
+                                                               self.marker(tok))
         # any other metadata leaf: text, sometimes attributes and children
         attrs = ""
         if r.random() < 0.4:
@@ -277,7 +299,7 @@ class Gamma:
             return ["<%s/>" % tag]
         return ["<%s>%s</%s>" % (tag, escape(ref["id"]), tag)]
 
-    def msg(self, m, message_id=2000, ro_id="RO1", loose_mid=False):
+    def msg(self, m, message_id=2000, ro_id="RO1", loose_mid=False, late_mid=False):
         cls = m["cls"]
         # the envelope of a message is not the envelope of the running order: vary its header elements
         rh = self.rng("envelope", cls, message_id)
@@ -299,7 +321,7 @@ class Gamma:
             head.append("<mosMsgTime>2020-01-01T10:00:00</mosMsgTime>")
         if rh.random() < 0.2:
             head.insert(0, "<mosDevice>dev &amp; co</mosDevice>")
-        roid = "<roID>%s</roID>" % escape(ro_id)
+        roid = "<roID>%s</roID>" % escape(self.roid(ro_id))
         kids = lambda: [self.child(c, depth=3) for c in m["carried"]]
         ea = None
         if cls == "StorySend":
@@ -357,7 +379,12 @@ class Gamma:
             base = '<roElementAction operation="%s">%s</roElementAction>' % (opname, inner)
         else:
             raise ValueError(cls)
-        return self.doc("<mos>%s</mos>" % self.join(head + [base], 1))
+        tail_parts = []
+        if late_mid or rh.random() < 0.1:          # <messageID> (and what follows it) after the message element
+            k = [i for i, h in enumerate(head) if h.startswith("<messageID")]
+            if k:
+                head, tail_parts = head[:k[0]], head[k[0]:]
+        return self.doc("<mos>%s</mos>" % self.join(head + [base] + tail_parts, 1))
 
     def wrap(self, tag, parts, depth=2):
         return "<%s>%s</%s>" % (tag, self.join(parts, depth), tag) if parts else "<%s/>" % tag
